@@ -399,6 +399,12 @@ m("referrers-skip-client-filter", ["C15"],
 m("oci-tags-ignore-last", ["C15"],
   ("content/oci/readonlyoci.go", """		if last != "" && tag <= last {""", """		if last != "" && tag < last {"""))
 
+m("remote-tag-pushes-unverified-body", ["C13"],
+  ("registry/remote/repository.go", """	manifest, err := content.ReadAll(rc, desc)
+	if err != nil {
+		return err
+	}
+	return s.push(ctx, desc, bytes.NewReader(manifest), ref.Reference)""", """	return s.push(ctx, desc, rc, ref.Reference)"""))
 # ---- auth / retry (C16, C17) ----
 m("auth-cache-key-without-host", ["C16"],
   ("registry/remote/auth/cache.go", """	entry, ok := cc.cache.Load(registry)
